@@ -1193,7 +1193,8 @@ def extra(ctx):
   missing_pp = [pp for pp in PROGRAM_POINTS if pp not in seen]
   ctx.notes.append(f'sched: {len(seen & set(PROGRAM_POINTS))}/{len(PROGRAM_POINTS)} program points of the product LTS executed on the real '
                    f'code under the scheduler ({len(reached)} by the model-guided stage); {len(_SCHEDULES)} distinct interleavings')
-  if missing_pp and _COVER.get('sched_program_points'):
+  if missing_pp and _COVER.get('sched_program_points') and not ctx.extra_disagreements and not ctx.extra_oracle_failures:
+    # (a model-guided replay that disagrees or fails the oracle does not count as reached: that is a verdict, reported below)
     from harness.core import InfraError
     raise InfraError(f'C20 sched family missed program points {missing_pp}')
   import os
